@@ -39,6 +39,13 @@ States(s, k) == [i \in 1..k |-> StepN(s, i)]
 
 RandInt(s, a, b)   == a + ScaleFloor(b - a + 1, Step(s))
 RandInts(s, n, a, b) == [i \in 1..n |-> a + ScaleFloor(b - a + 1, StepN(s, i))]
+(* uniforms with bounds, random(min,max) / randoms(n,min,max) = min + (max-min)*u (lines 48-82), on the grid of
+   bounds that are multiples of 1/Q (the driver fixes Q; min = lo/Q, max = hi/Q, 0 < hi-lo <= B): the value is
+   x = (lo + (hi-lo)*s'/2^(2H))/Q, so the grid cell it falls in is floor(Q*x) = lo + floor((hi-lo)*s'/2^(2H)),
+   and the contract min <= x < max is exactly lo <= floor(Q*x) < hi.  The scale (hi-lo) and the shift (lo) are
+   independent: neither may be dropped because the other is the identity (width 1 with min # 0, min 0 with width # 1) *)
+UniformCell(s2, lo, hi) == lo + ScaleFloor(hi - lo, s2)
+UniformInBounds(s2, lo, hi) == UniformCell(s2, lo, hi) >= lo /\ UniformCell(s2, lo, hi) < hi
 (* Durstenfeld on <<0..n-1>> : returns the permutation *)
 RECURSIVE Shuf(_,_,_,_)
 Shuf(l, i, n, s) == IF i >= n - 1 THEN l ELSE
